@@ -3,7 +3,8 @@ Require Import VT.Tac VT.ListN VT.Utf8 VT.Width VT.Attrs VT.Cell VT.Row VT.Grid 
 Require Import VT.RowInv VT.GridInv VT.TextInv VT.ScreenInv VT.ParseSer VT.CellWf VT.WfInv VT.WrapInv VT.WrapInvScreen VT.SgrSpec VT.EmitSafe VT.ObsSpec.
 Require Import VT.CellInv VT.Recv VT.RowPaint VT.Redraw VT.Cursor VT.C01Main VT.C15Main VT.CapInv VT.Idem VT.LastRow VT.C01Examples.
 Require Import VT.Tac VT.ListN VT.Utf8 VT.Width VT.Attrs VT.Cell VT.Row VT.Grid VT.Screen VT.Vte VT.Perform VT.Term VT.Emit VT.RowInv VT.GridInv VT.TextInv VT.ScreenInv VT.ParseSer VT.CellWf VT.WfGrid VT.WfVte VT.WfInv VT.EraseSpec VT.SgrSpec VT.MoveSpec VT.PrintSpec VT.CellBytes VT.EmitSafe VT.WrapInv VT.WrapInvScreen VT.ObsSpec VT.Recv VT.RowPaint VT.Redraw VT.Cursor VT.C01Main VT.C15Main VT.DiffPaint VT.DiffGrid VT.DiffMain VT.DiffWindow.
-Require Import VT.Props.C15 VT.Props.C15diff.
+Require Import VT.Tac VT.ListN VT.Utf8 VT.Width VT.Attrs VT.Cell VT.Row VT.Grid VT.Screen VT.Vte VT.Perform VT.Term VT.Emit VT.RowInv VT.GridInv VT.TextInv VT.ScreenInv VT.ParseSer VT.CellWf VT.WfGrid VT.WfVte VT.WfInv VT.EraseSpec VT.SgrSpec VT.MoveSpec VT.PrintSpec VT.CellBytes VT.EmitSafe VT.WrapInv VT.WrapInvScreen VT.ObsSpec VT.Recv VT.RowPaint VT.Redraw VT.Cursor VT.C01Main VT.C15Main VT.DiffPaint VT.DiffGrid VT.DiffMain VT.DiffWrap VT.DiffWindowK.
+Require Import VT.Props.C15 VT.Props.C15diff VT.Props.C15diffK.
 Open Scope N_scope.
 Check C15_window_protocol_def : forall start i toks,
   window_protocol start i toks =
@@ -116,3 +117,16 @@ Check C15diff_row_diff_window : forall R i src prev start l0 ri0 r0 c0 a0,
     cv R (set_at l0 i ri) r' c' /\ pen_ok a' /\
     dpainted src prev start ri (start + width).
 Print Assumptions C15diff_row_diff_window.
+Check C15diffK_full_done_def : forall ri src, full_done ri src <->
+  (cells ri = cells src /\ (wrapped src = false -> wrapped ri = false)).
+Print Assumptions C15diffK_full_done_def.
+Check C15diffK_full : forall S P R vr pvr toks,
+  source_ok S vr -> source_ok P pvr ->
+  grows (cur S) = grows (cur P) -> gcols (cur S) = gcols (cur P) ->
+  canvas R -> grows (g R) = grows (cur P) -> gcols (g R) = gcols (cur P) -> live (g R) = pvr ->
+  rows_diff_t S P 0 (gcols (cur S)) = Ok toks ->
+  exists R', play false R (window_protocol 0 0 toks) = Ok (R', []) /\ canvas R' /\
+    grows (g R') = grows (g R) /\ gcols (g R') = gcols (g R) /\
+    forall i, i < grows (cur S) -> exists ri src,
+      get (live (g R')) i = Some ri /\ get vr i = Some src /\ full_done ri src.
+Print Assumptions C15diffK_full.
